@@ -313,24 +313,42 @@ def rule_auxv(ctx, R="C18/auxv"):
                     bad_exit.append(b.where(x))
         ctx.check(not bad_exit, R, "scans-whole-vector", b.where(h), "the pair loop ends only when the vector is exhausted", "the pair loop can be left before the end of the vector (%s): keys behind that point are never seen" % bad_exit[:2])
     # From<DirectAuxvDumpInfo>: field f <- (f > 0).then_some(f)
+    FROM = "<linux::auxv::AuxvDumpInfo as std::convert::From<linux::auxv::DirectAuxvDumpInfo>>::from"
     fb = None
     for body in ctx.prog.bodies:
-        if body.short.startswith("<linux::auxv::AuxvDumpInfo as std::convert::From<linux::auxv::DirectAuxvDumpInfo>>::from"):
+        if body.short == FROM:
             fb = body
     if fb is None:
         ctx.violated(R, ("anchor", "From<DirectAuxvDumpInfo>"), None, "anchor missing: conversion of caller-supplied auxv values")
     else:
-        fo = Origin(fb)
+        def _subst(e, arg):
+            if e == ("param", 2):
+                return arg
+            if isinstance(e, tuple):
+                return tuple(_subst(x, arg) for x in e)
+            return e
+
+        def _inline(fe):
+            """a local one-argument closure applied to a value (`let set = |v| (v > 0).then_some(v)`) is looked through"""
+            fe = strip(fe)
+            if fe[0] == "call" and fe[1].startswith(FROM + "::{closure") and len(fe[2]) == 2 and strip(fe[2][1])[0] == "tuple" and len(strip(fe[2][1])[1]) == 1:
+                outs = return_origins(ctx.prog, fe[1]) or []
+                if len(outs) == 1:
+                    return strip(_subst(strip(outs[0]), strip(fe[2][1])[1][0]))
+            return fe
+        nd = 0
         for e in return_origins(ctx.prog, fb.short) or []:
             e = strip(e)
             if e[0] != "agg":
                 continue
             for fn, fe in e[3]:
-                fe = strip(fe)
+                fe = _inline(fe)
+                nd += 1
                 ok = fe[0] == "call" and fe[1].split("::")[-1] == "then_some" and core(fe[2][1]) == ("field", ("param", 1), fn)
-                c = core(fe[2][0]) if ok else ("?",)
+                c = core(fe[2][0]) if fe[0] == "call" and fe[1].split("::")[-1] == "then_some" else ("?",)
                 ok = ok and c[0] == "bin" and c[1] == "Gt" and core(c[2]) == ("field", ("param", 1), fn) and core(c[3])[1] == 0
-                ctx.check(ok, R, ("direct", fn), fb.where(0), "direct %s is taken iff > 0 (0 means unset)" % fn, "direct %s <- %s" % (fn, show(fe)[:100]))
+                ctx.check(ok, R, ("direct", fn), fb.where(0), "direct %s is taken iff > 0 (0 means unset)" % fn, "direct %s <- %s: the caller-supplied value of another field (or under another field's test) is stored here" % (fn, show(fe)[:100]))
+        ctx.floor(R, "fields of the direct-auxv conversion", nd, 4)
     # auxv file path
     for x, t in b.calls(lambda c: c.short == "std::fs::File::open"):
         a = o.call_args(x)
@@ -527,7 +545,7 @@ def rule_auxv_pairs(ctx, R="C18/auxv-pairs"):
     at key == AT_NULL (0) only."""
     prog = ctx.prog
     nb = ctx.body(R, "linux::auxv::reader::ProcfsAuxvIter::new")
-    it = [b for b in prog.bodies if b.short.startswith("<linux::auxv::reader::ProcfsAuxvIter as std::iter::Iterator>::next")]
+    it = [b for b in prog.bodies if b.short == "<linux::auxv::reader::ProcfsAuxvIter as std::iter::Iterator>::next"]
     rl = ctx.body(R, "linux::auxv::reader::read_long")
     if nb is None or rl is None or len(it) != 1:
         if len(it) != 1:
